@@ -147,7 +147,12 @@ def check(fb, ctx):
         # remaining time: guarded subtraction
         h = fb.hir_of(b)
         exec_ids = hirq.let_ids(h["body"], lambda z: bool(find_all(z, lambda y: hirq.calls_path(y, r"Authorizer::run$"))))
-        guard = [n for n in find_all(h["body"], lambda n: n.get("k") == "if") if (lambda c: c.get("k") == "binary" and c.get("op") in ("Ge", "Gt") and hirq.is_lid(strip(c["a"]), exec_ids) and field_of(c["b"], "limits", "max_time"))(strip(n["cond"])) and runlimit_kind(n["then"]) == "Timeout" and find_all(n["then"], lambda z: z.get("k") == "ret")]
+        def spent_vs_budget(c):      # `execution_time >= limits.max_time` or `limits.max_time <= execution_time`
+            if c.get("k") != "binary" or c.get("op") not in ("Ge", "Gt", "Le", "Lt"):
+                return False
+            spent, budget = (c["a"], c["b"]) if c["op"] in ("Ge", "Gt") else (c["b"], c["a"])
+            return hirq.is_lid(strip(spent), exec_ids) and field_of(budget, "limits", "max_time")
+        guard = [n for n in find_all(h["body"], lambda n: n.get("k") == "if") if spent_vs_budget(strip(n["cond"])) and runlimit_kind(n["then"]) == "Timeout" and find_all(n["then"], lambda z: z.get("k") == "ret")]
         sub = [n for n in find_all(h["body"], lambda n: n.get("k") == "assignop" and n["op"] == "SubAssign" and field_of(n["lhs"], "limits", "max_time") and hirq.is_lid(strip(n["rhs"]), exec_ids))]
         # equivalent: `max_time: <limits>.max_time - execution_time` in a struct literal / a let
         sub += [n for n in find_all(h["body"], lambda n: n.get("k") == "binary" and n.get("op") == "Sub" and field_of(n["a"], "limits", "max_time") and hirq.is_lid(strip(n["b"]), exec_ids))]
